@@ -289,7 +289,7 @@ func (tree *Tree[T]) Find(pattern string) *node[T] { return tree.node.find(patte
 // NOTE: 会检测 pattern 是否存在于 tree 中。
 func (tree *Tree[T]) URL(buf *errwrap.StringBuilder, pattern string, ps map[string]string) error {
 	n := tree.Find(pattern)
-	if n == nil {
+	if n == nil || n.size() == 0 { // 没有处理函数的节点只是其它路由项的公共前缀
 		return fmt.Errorf("%s 并不是一条有效的注册路由项", pattern)
 	}
 
